@@ -35,6 +35,12 @@ CLAIMED = {
  "C06": dict(level="exploration", tech="deterministic simulation: the C library as a node driven through blake3_hasher_* by seeded histories (update fragmentation, finalize/finalize_seek/reset/struct-copy interleavings, per-run CPU feature mask, scripted TBB join seam); SpecModel and the Rust crate as twin oracles; shrinking and exact replay",
    text="Seeded search over C API histories on both kernel flavours (assembly and C intrinsics, compiled from the working tree) under random subsets of the detected feature mask; every output is compared with SpecModel and with the Rust crate on the same history; finalize must leave the hasher fields unchanged, reset must restore the initial fields, the two derive-key initialisers must agree, zero-length calls are no-ops, canaries guard every output buffer.",
    note="Trusted: SpecModel; BLAKE3_TESTING exposes g_cpu_features; oneTBB is absent, its contract is played by the simulator's join seam. Windows/MSVC/NEON builds are outside the claim.", ref="DESIGN.md §3 C06"),
+ "C12": dict(level="exploration", tech="deterministic simulation at process level: the real b3sum binary as a node in a per-run sandbox directory; seeded flag swarm and file sets; faults injected between runs (file deleted/modified/truncated/replaced by directory, checkfile line damage, CRLF, truncation, invalid UTF-8, missing checkfile); line-by-line reference model of --check; shrinking and exact replay",
+   text="Seeded search over b3sum invocations: stdout digest bytes must equal the library's extended output S[seek..seek+length] in the documented line format for every accepted flag combination; --check's exit status must be 0 iff the line-by-line model says every entry is OK, every later entry must still be reported, a panic is a violation. Found and fixed (with C13): parse_check_line panicked on a 64-byte non-ASCII hash field, which aborted the rest of the checkfile.",
+   note="b3sum is built from the repository source through a shadow manifest (wild stubbed as std::env::args_os, clap without wrap_help). Trusted: library output as decided by C02/C03; the format model in sim/src/cli.rs.", ref="DESIGN.md §3 C12"),
+ "C13": dict(level="exploration", tech="deterministic simulation: producer (b3sum) and consumer (b3sum --check) coupled through a stored checkfile that the simulator damages; path swarm with engineered colliding pairs; in-process enumeration of every single-character / byte-overwrite / truncation mutation of real records against the real parse_check_line; shrinking and exact replay",
+   text="End-to-end round trips through real b3sum for path swarms rich in the characters that matter, plus in-process sweeps: for each path the printed line must parse back to exactly that path and hash (or be rejected if unrepresentable), and every single-edit mutation must either be rejected or parse to what the documented format says - never panic. Found and fixed: --tag lines with a double space in the path did not round-trip; a 64-byte hash field ending in a multi-byte character panicked the parser.",
+   note="'For arbitrary text' is a statement about a pure function: the simulator only reaches the neighbourhood of real records that storage damage produces (single edits, byte-preserving overwrites, truncations).", ref="DESIGN.md §3 C13"),
 }
 NA = {
  "C01": "one-shot hash/keyed_hash/derive_key are pure functions of their arguments: no history, schedule, clock or fault exists for a simulator to control; input search alone would be fuzzing, a different technique family",
